@@ -138,7 +138,20 @@ def generate(seed, tier="quick"):
         # a second module with the same text layout (same helper functions on the same lines): call sites of different files stay apart
         W.add_twin_file(prog, wrng, vary=wrng.random() < 0.6)
     W.sprinkle_uni(prog, sub(seed, "uni"), 0.05)
-    return {"program": prog, "driver": driver, "fmt": draw_fmt(sub(seed, "fmt"))}
+    fmt = draw_fmt(sub(seed, "fmt"))
+    wrng2 = sub(seed, "crlf")
+    if wrng2.random() < 0.08:
+        # a project with windows line ends whose format-command writes CRLF as well: multi-line string values still read back with "\n"
+        for f in prog["files"]:
+            f["header"] = dict(f.get("header") or {}, eol="crlf")
+            f["header"].pop("tabs", None)
+        if wrng2.random() < 0.7:
+            fmt = {"kind": "cmd", "stub": "black-crlf", "mode": {"line_length": wrng2.choice([40, 88])}}
+        f = prog["files"][0]
+        f["sites"]["ml1"] = {"op": wrng2.choice(["eq", "eq", "in"]), "place": "direct", "arg": None, "prev": None}
+        wrng2.choice(f["tests"])["events"].append({"t": "cmp", "eid": "eml1", "site": "ml1", "vals": [wrng2.choice([["str", "first\nsecond\nthird"], ["list", [["str", "a\nb\n"], ["int", 1]]],
+                                                                                                                  ["dict", [[["str", "k"], ["str", "x\n\ny"]]]]])], "style": wrng2.choice(["assert", "rec"])})
+    return {"program": prog, "driver": driver, "fmt": fmt}
 
 
 def site_values(prog, sid):
